@@ -24,6 +24,7 @@ type Witness struct {
 	Witness string
 	Detail  string
 	Replay  interface{}
+	Count   int // failing (type, class) cases of the run that shrink to this witness
 }
 
 // Shrinker reduces every failing (type, class) to a minimal type with the
@@ -111,7 +112,7 @@ type shrinkItem struct {
 
 // ShrinkAll shrinks every (type, class) among the rejected observations and
 // returns one witness per distinct minimal (type, class).
-func (s *Shrinker) ShrinkAll(bads []Bad) ([]Witness, error) {
+func (s *Shrinker) ShrinkAll() ([]Witness, error) {
 	var items []*shrinkItem
 	seen := map[string]bool{}
 	origCount := map[string]int{}
@@ -207,6 +208,7 @@ func (s *Shrinker) ShrinkAll(bads []Bad) ([]Witness, error) {
 	var out []Witness
 	for _, k := range keys {
 		w := byWit[k]
+		w.Count = origCount[k]
 		w.Detail = fmt.Sprintf("%d failing (type, class) cases shrink to this witness; %s", origCount[k], w.Detail)
 		out = append(out, *w)
 	}
